@@ -141,7 +141,7 @@ macro_rules | `(tactic| wq1) => `(tactic| first
   | (apply s_eof_if <;> intros <;> try (exfalso; omega))
   | (apply s_debugConsume_if _ (by decide) (by assumption) (by assumption) (by assumption) (by fin) <;> intros)
   | apply tri_bind
-  | (apply tri_ite <;> intro _ <;> norm_last)
+  | (apply tri_ite; (case' hT => (intro _; norm_last)); (case' hF => (intro _; norm_neg)))
   | (apply s_curr (by assumption) (by assumption); intros)
   | (apply s_peek _ (by assumption) (by assumption); intros)
   | (apply s_consume (by assumption) (by assumption) (by assumption) <;> intros <;> try (exfalso; omega))
